@@ -227,6 +227,8 @@ func (c Dirs) Files(s Src) map[string]string {
 	fmt.Fprintf(&b, "genrule(name=\"g\", srcs=[\":fg\", \":t\"], outs=[\"g.out\"], binary=%s, cmd=%q)\n", s["g_binary"], fmt.Sprintf(logPfx, "//p:g")+listCmd)
 	fmt.Fprintf(&b, "filegroup(name=\"ff\", srcs=[\"f.txt\"])\n")
 	fmt.Fprintf(&b, "genrule(name=\"h\", srcs=[\":ff\"], outs=[\"h.out\"], cmd=%q)\n", fmt.Sprintf(logPfx, "//p:h")+catCmd)
+	// a declared output that is itself a symlink (lib.so -> lib.so.1): its recorded rule hash lives in a side file, not in an xattr
+	fmt.Fprintf(&b, "genrule(name=\"k\", srcs=[\"d.txt\"], outs=[\"k.txt\", \"k.lnk\"], cmd=%q)\n", fmt.Sprintf(logPfx, "//p:k")+"read -r x < $SRCS; echo $x > k.txt; ln -s k.txt k.lnk")
 	fs := map[string]string{"p/BUILD": b.String(), "p/d.txt": s["d_txt"] + "\n", "p/sdir/" + s["s_name"]: s["s_txt"] + "\n", "p/f.txt": s["f_txt"] + "\n"}
 	if c.Config != "" {
 		fs[".plzconfig"] = plzconfig + c.Config
@@ -247,6 +249,7 @@ func (c Dirs) Targets(s Src) []Target {
 		{"//p:g", []string{g}},
 		{"//p:ff", []string{"plz-out/gen/p/f.txt"}},
 		{"//p:h", []string{"plz-out/gen/p/h.out"}},
+		{"//p:k", []string{"plz-out/gen/p/k.txt", "plz-out/gen/p/k.lnk"}},
 	}
 }
 
@@ -262,7 +265,7 @@ func (c Dirs) Sigs(s Src, clean *Obs) map[string]string {
 	files := c.Files(s)
 	defs := map[string]string{}
 	for _, l := range strings.Split(files["p/BUILD"], "\n") {
-		for _, n := range []string{"d", "e", "fg", "t", "g", "ff", "h"} {
+		for _, n := range []string{"d", "e", "fg", "t", "g", "ff", "h", "k"} {
 			if strings.Contains(l, "name=\""+n+"\"") {
 				defs["//p:"+n] = l
 			}
@@ -273,6 +276,7 @@ func (c Dirs) Sigs(s Src, clean *Obs) map[string]string {
 		"//p:e": defs["//p:e"] + "|" + clean.Outs["//p:d"],
 		"//p:g": defs["//p:g"] + "|" + clean.Outs["//p:fg"] + "|" + clean.Outs["//p:t"],
 		"//p:h": defs["//p:h"] + "|" + clean.Outs["//p:ff"],
+		"//p:k": defs["//p:k"] + "|" + files["p/d.txt"],
 	}
 }
 
